@@ -35,11 +35,14 @@ static const char* kArchName[] = {"x86-32", "x64", "a64"};
 static const char* kEmName[] = {"asm", "builder", "compiler"};
 static const char* kHdName[] = {"none", "rec", "throw"};
 
+static const uint64_t kBases[4] = {~uint64_t(0) /* none */, 0x10000ull, 0x200000000ull, 0x7FFFFFFFFFFF0000ull};
+
 struct Cfg {
   ArchK arch = AX64; EmK ek = EASM; HdK hk = HREC; bool logger = false;
+  int base = 0;             // index into kBases: base address given to CodeHolder::init() (0 = none)
   bool validate = true;     // kValidateAssembler (+kValidateIntermediate); off only for AArch64 "warm" units that have to reach the fast path of _emit
-  std::string str() const { return std::string("arch=") + kArchName[arch] + " emitter=" + kEmName[ek] + " handler=" + kHdName[hk] + " logger=" + (logger ? "1" : "0") + " validate=" + (validate ? "1" : "0"); }
-  int key() const { return (((int(arch) * 3 + int(ek)) * 3 + int(hk)) * 2 + (logger ? 1 : 0)) * 2 + (validate ? 1 : 0); }
+  std::string str() const { return std::string("arch=") + kArchName[arch] + " emitter=" + kEmName[ek] + " handler=" + kHdName[hk] + " logger=" + (logger ? "1" : "0") + " validate=" + (validate ? "1" : "0") + " base=" + std::to_string(base); }
+  int key() const { return ((((int(arch) * 3 + int(ek)) * 3 + int(hk)) * 2 + (logger ? 1 : 0)) * 2 + (validate ? 1 : 0)) * 4 + base; }
 };
 
 // kinds: I inst, B bind, A align, E embed, D embed_data_array, L embed_label, X embed_label_delta, S section,
@@ -53,6 +56,8 @@ struct Call {
   Operand_ ops[6];
   uint64_t a0 = 0, a1 = 0, a2 = 0;
   std::string must;   // non-empty: the call names something unrepresentable - it must not succeed (culprit text)
+  int abs_form = 0;        // != 0: the call names an absolute target address (AbsForm); the encoding of an accepted call is decoded
+  uint64_t abs_target = 0;
   bool expect_ok = false;  // harness self check: a default instantiation the Assembler has to accept
   std::string tag;    // last component of violation keys when there is no culprit (inst name / class / call name)
   Call() { extra.reset(); for (auto& o : ops) o.reset(); }
@@ -193,6 +198,7 @@ static std::string ser_call(ArchK arch, const Call& c) {
   } else {
     s += " a0=" + hx(c.a0) + " a1=" + hx(c.a1) + " a2=" + hx(c.a2);
   }
+  if (c.abs_form) s += " abs=" + num(c.abs_form) + ":" + hx(c.abs_target);
   s += " tag=" + (c.tag.empty() ? std::string("-") : enc_text(c.tag));
   s += " must=" + (c.must.empty() ? std::string("-") : enc_text(c.must));
   s += " # " + desc_call(arch, c);
@@ -216,6 +222,7 @@ static bool parse_call(const std::string& line, Call& c) {
     else if (k == "a1") c.a1 = strtoull(v.c_str(), nullptr, 0);
     else if (k == "a2") c.a2 = strtoull(v.c_str(), nullptr, 0);
     else if (k == "tag") c.tag = v == "-" ? "" : v;
+    else if (k == "abs") { c.abs_form = atoi(v.c_str()); size_t q = v.find(':'); if (q != std::string::npos) c.abs_target = strtoull(v.c_str() + q + 1, nullptr, 0); }
     else if (k == "must") c.must = v == "-" ? "" : v;
   }
   return true;
@@ -244,6 +251,7 @@ static bool parse_unit(const std::string& text, Unit& u) {
         if (k == "handler") for (int i = 0; i < 3; i++) if (v == kHdName[i]) u.cfg.hk = HdK(i);
         if (k == "logger") u.cfg.logger = v == "1";
         if (k == "validate") u.cfg.validate = v != "0";
+        if (k == "base") u.cfg.base = atoi(v.c_str()) & 3;
       }
     } else if (line.rfind("call=", 0) == 0) {
       Call c; parse_call(line, c); u.calls.push_back(c);
@@ -376,7 +384,7 @@ struct Env {
 
   explicit Env(const Cfg& c) : cfg(c) {
     Arch a = c.arch == AX86 ? Arch::kX86 : c.arch == AX64 ? Arch::kX64 : Arch::kAArch64;
-    if (code.init(Environment(a)) != Error::kOk) return;
+    if (code.init(Environment(a), kBases[c.base]) != Error::kOk) return;
     if (foreign.init(Environment(a)) != Error::kOk) return;
     if (foreign.new_section(Out(SF), ".foreign", SIZE_MAX, SectionFlags::kNone, 8, 0) != Error::kOk) return;
     if (c.hk != HNONE) { eh.do_throw = false; code.set_error_handler(&eh); }
@@ -579,6 +587,61 @@ static Error probe(Env& e) {
 }
 
 // ---------------------------------------------------------------------------------------------------------
+// absolute targets under a known base address: field layouts of the Arm ARM (C6.2 B/BL imm26, B.cond/CBZ/LDR literal
+// imm19, TBZ imm14, ADR/ADRP immlo:immhi) and of the Intel SDM (rel8 / rel32 relative to the end of the instruction,
+// RIP relative disp32).  Everything is computed from the bytes, nothing from the library.
+// ---------------------------------------------------------------------------------------------------------
+enum AbsForm { AF_NONE = 0, AF_IMM26 = 1, AF_IMM19 = 2, AF_IMM14 = 3, AF_ADR = 4, AF_ADRP = 5, AF_X86_JMP = 10, AF_X86_JCC = 11, AF_X86_MEM = 12 };
+
+static int64_t sx(uint64_t v, int bits) { uint64_t m = uint64_t(1) << (bits - 1); v &= (uint64_t(1) << bits) - 1; return int64_t((v ^ m) - m); }
+
+// reachable with this form from `pc`?  (AArch64: pc = address of the instruction)
+static bool a64_reachable(int form, uint64_t pc, uint64_t target) {
+  int64_t d = int64_t(target - pc);
+  switch (form) {
+    case AF_IMM26: return (d & 3) == 0 && d >= -(int64_t(1) << 27) && d < (int64_t(1) << 27);
+    case AF_IMM19: return (d & 3) == 0 && d >= -(int64_t(1) << 20) && d < (int64_t(1) << 20);
+    case AF_IMM14: return (d & 3) == 0 && d >= -(int64_t(1) << 15) && d < (int64_t(1) << 15);
+    case AF_ADR: return d >= -(int64_t(1) << 20) && d < (int64_t(1) << 20);
+    case AF_ADRP: { int64_t pd = int64_t((target & ~uint64_t(0xFFF)) - (pc & ~uint64_t(0xFFF))); return pd >= -(int64_t(1) << 32) && pd < (int64_t(1) << 32); }
+  }
+  return true;
+}
+// the address the emitted word refers to
+static uint64_t a64_decoded_target(int form, uint32_t w, uint64_t pc) {
+  switch (form) {
+    case AF_IMM26: return pc + uint64_t(sx(w & 0x3FFFFFFu, 26) * 4);
+    case AF_IMM19: return pc + uint64_t(sx((w >> 5) & 0x7FFFFu, 19) * 4);
+    case AF_IMM14: return pc + uint64_t(sx((w >> 5) & 0x3FFFu, 14) * 4);
+    case AF_ADR: return pc + uint64_t(sx((((w >> 5) & 0x7FFFFu) << 2) | ((w >> 29) & 3u), 21));
+    case AF_ADRP: return (pc & ~uint64_t(0xFFF)) + uint64_t(sx((((w >> 5) & 0x7FFFFu) << 2) | ((w >> 29) & 3u), 21) * 4096);
+  }
+  return 0;
+}
+// x86-64: returns false when the bytes are not one of the PC relative / absolute patterns this leg understands
+static bool x86_decoded_target(int form, const uint8_t* b, size_t n, uint64_t pc, uint64_t& tgt) {
+  auto rd32 = [&](size_t at) { return int32_t(uint32_t(b[at]) | (uint32_t(b[at + 1]) << 8) | (uint32_t(b[at + 2]) << 16) | (uint32_t(b[at + 3]) << 24)); };
+  if (form == AF_X86_JMP || form == AF_X86_JCC) {
+    if (n == 2 && (b[0] == 0xEB || (b[0] & 0xF0) == 0x70)) { tgt = pc + 2 + uint64_t(int64_t(int8_t(b[1]))); return true; }
+    if (n == 5 && (b[0] == 0xE9 || b[0] == 0xE8)) { tgt = pc + 5 + uint64_t(int64_t(rd32(1))); return true; }
+    if (n == 6 && b[0] == 0x0F && (b[1] & 0xF0) == 0x80) { tgt = pc + 6 + uint64_t(int64_t(rd32(2))); return true; }
+    return false;
+  }
+  if (form == AF_X86_MEM) {
+    if (n >= 7 && (b[n - 6] & 0xC7) == 0x04 && b[n - 5] == 0x25) {                                                        // [disp32] (SIB, no base, no index)
+      bool a32 = false; for (size_t i = 0; i + 6 < n; i++) if (b[i] == 0x67) a32 = true;
+      tgt = a32 ? uint64_t(uint32_t(rd32(n - 4))) : uint64_t(int64_t(rd32(n - 4)));
+      // LEA without REX.W writes the low 32 bits of the effective address, zero extended: that is the value the request names
+      if (b[n - 7] == 0x8D && !(n >= 8 && (b[n - 8] & 0xF8) == 0x48)) tgt = uint64_t(uint32_t(tgt));
+      return true;
+    }
+    if (n >= 6 && (b[n - 5] & 0xC7) == 0x05) { tgt = pc + n + uint64_t(int64_t(rd32(n - 4))); return true; }              // [rip + disp32]
+    return false;
+  }
+  return false;
+}
+
+// ---------------------------------------------------------------------------------------------------------
 // label arguments of a call (decided per history: a label id names a label iff id < label_count() at that moment)
 // ---------------------------------------------------------------------------------------------------------
 static void label_ids_of(const Call& c, std::vector<uint32_t>& ids) {
@@ -658,6 +721,7 @@ static bool run_history(const Cfg& cfg, const std::vector<Call>& calls, const st
       for (uint32_t id : lids) { lab_max[i] = std::max<uint32_t>(lab_max[i], id == Globals::kInvalidId ? id : id + 1); if (id >= lc) { lbad = true; lbad_id = id; if (id >= lc + 16) lnear = false; } }
     }
     int h0 = e.eh.count;
+    size_t rel0 = e.code.reloc_entries().size();
     size_t off0 = 0; Section* sec0 = nullptr;
     if (BaseAssembler* a = e.assembler()) { off0 = a->offset(); sec0 = a->current_section(); }
     CallOut out;
@@ -683,6 +747,20 @@ static bool run_history(const Cfg& cfg, const std::vector<Call>& calls, const st
         ur.notes.push_back(std::string("accepted-garbage ") + kArchName[cfg.arch] + " " + c.must + " @ " + c.tag);
       }
       if (lbad) late[i] = 1;
+      // absolute target under a known base address: the appended bytes have to refer to exactly that address
+      if (c.abs_form && cfg.base && cfg.ek == EASM && sec0 == e.code.text_section() && c.must.empty() && e.code.reloc_entries().size() == rel0) {
+        uint64_t pc = kBases[cfg.base] + off0, got = 0;
+        size_t n = e.assembler()->offset() - off0;
+        bool known = false;
+        if (cfg.arch == AA64) {
+          if (n == 4) { uint32_t w; memcpy(&w, sec0->data() + off0, 4); got = a64_decoded_target(c.abs_form, w, pc); known = true; }
+        } else known = x86_decoded_target(c.abs_form, sec0->data() + off0, n, pc, got);
+        uint64_t want = c.abs_form == AF_ADRP ? (c.abs_target & ~uint64_t(0xFFF)) : c.abs_target;
+        if (known && got != want)
+          fail("accepted-garbage", "abs-target-mismatch@" + c.tag, "accepted (bytes " + hexs + " at address " + hx(pc) + ") but the bytes refer to " + hx(got) + ", not to the requested target " + hx(want));
+        else if (known) ur.cnt["abs_targets_verified"]++;
+        else ur.cnt["abs_targets_not_decoded"]++;
+      }
       if (lbad && c.must.empty()) {
         if (cfg.ek == EASM) {
           fail("accepted-garbage", label_culprit(c), "accepted (bytes " + hexs + ") although label id " + num(lbad_id) + " does not name a label of the holder (label_count() is " + num(lc) + ")");
@@ -1557,6 +1635,69 @@ static void gen_misc(Gen& g, bool thorough) {
 }
 
 // ---------------------------------------------------------------------------------------------------------
+// known base address + absolute (immediate) targets: units [nop, <pc relative instruction to an absolute address>]
+// ---------------------------------------------------------------------------------------------------------
+static void gen_abs(Gen& g, bool thorough) {
+  (void)thorough;
+  struct Form { ArchK arch; int form; const char* name; int64_t limit; /* |distance| limit of the form in bytes */ };
+  const Form forms[] = {
+    {AA64, AF_IMM26, "b imm", int64_t(1) << 27}, {AA64, AF_IMM26, "bl imm", int64_t(1) << 27}, {AA64, AF_IMM19, "b.ne imm", int64_t(1) << 20},
+    {AA64, AF_IMM19, "cbz x,imm", int64_t(1) << 20}, {AA64, AF_IMM19, "cbnz w,imm", int64_t(1) << 20}, {AA64, AF_IMM14, "tbz x,#33,imm", int64_t(1) << 15},
+    {AA64, AF_IMM14, "tbnz w,#3,imm", int64_t(1) << 15}, {AA64, AF_ADR, "adr x,imm", int64_t(1) << 20}, {AA64, AF_ADRP, "adrp x,imm", int64_t(1) << 32},
+    {AA64, AF_IMM19, "ldr x,[abs]", int64_t(1) << 20},
+    {AX64, AF_X86_JMP, "jmp imm", int64_t(1) << 31}, {AX64, AF_X86_JMP, "call imm", int64_t(1) << 31}, {AX64, AF_X86_JCC, "jz imm", int64_t(1) << 31},
+    {AX64, AF_X86_JCC, "jnz imm (short)", 128}, {AX64, AF_X86_MEM, "mov eax,[rel abs]", int64_t(1) << 31}, {AX64, AF_X86_MEM, "lea rax,[abs]", int64_t(1) << 31},
+  };
+  long long row = 0;
+  for (const Form& f : forms) {
+    std::vector<int64_t> ds = {0, 4, -4, 8, 0x40, -0x40, 2, -2, 1, 0x1000, -0x1000, 0x1004};
+    for (int64_t sgn : {int64_t(1), int64_t(-1)}) {
+      for (int64_t k : {-8, -4, 0, 4, 8}) ds.push_back(sgn * f.limit + k);
+      if (f.form == AF_ADRP) for (int64_t k : {-0x2000, -0x1000, 0x1000, 0x2000, 0x1234}) { ds.push_back(sgn * f.limit + k); ds.push_back(sgn * (int64_t(1) << 31) + k); }
+      for (int64_t big : {int64_t(1) << 31, int64_t(1) << 32, (int64_t(1) << 32) + 0x40, int64_t(1) << 33, int64_t(12) << 30, (int64_t(1) << 39) - (int64_t(1) << 32), int64_t(1) << 39})
+        for (int64_t k : {0, 4, -4, 2}) ds.push_back(sgn * big + k);
+    }
+    std::sort(ds.begin(), ds.end()); ds.erase(std::unique(ds.begin(), ds.end()), ds.end());
+    for (int base = 0; base < 4; base++) for (EmK ek : {EASM, EBUILDER, ECOMPILER}) for (int64_t d : ds) {
+      row++;
+      if (!g.want()) continue;
+      Unit u; u.cfg.arch = f.arch; u.cfg.ek = ek; u.cfg.hk = HdK(row % 3); u.cfg.base = base; u.group = "abs:targets";
+      u.cfg.validate = f.arch != AA64 || (row & 1) != 0;          // AArch64: also without validation (fast path of _emit)
+      Call nop; nop.kind = 'I'; nop.id = f.arch == AA64 ? uint32_t(a64::Inst::kIdNop) : uint32_t(x86::Inst::kIdNop); nop.tag = "nop"; nop.expect_ok = true;
+      uint64_t pc = (base ? kBases[base] : 0x10000ull) + (f.arch == AA64 ? 4 : 1);       // the nop is 4 bytes / 1 byte
+      uint64_t target = pc + uint64_t(d);
+      Call c; c.kind = 'I'; c.tag = f.name; c.abs_form = f.form; c.abs_target = target;
+      std::string n = f.name;
+      if (f.arch == AA64) {
+        using namespace a64;
+        if (n == "b imm") { c.id = Inst::kIdB; c.nops = 1; c.ops[0] = Imm(target); }
+        else if (n == "bl imm") { c.id = Inst::kIdBl; c.nops = 1; c.ops[0] = Imm(target); }
+        else if (n == "b.ne imm") { c.id = BaseInst::compose_arm_inst_id(Inst::kIdB, arm::CondCode::kNE); c.nops = 1; c.ops[0] = Imm(target); }
+        else if (n == "cbz x,imm") { c.id = Inst::kIdCbz; c.nops = 2; c.ops[0] = x0; c.ops[1] = Imm(target); }
+        else if (n == "cbnz w,imm") { c.id = Inst::kIdCbnz; c.nops = 2; c.ops[0] = w1; c.ops[1] = Imm(target); }
+        else if (n == "tbz x,#33,imm") { c.id = Inst::kIdTbz; c.nops = 3; c.ops[0] = x0; c.ops[1] = Imm(33); c.ops[2] = Imm(target); }
+        else if (n == "tbnz w,#3,imm") { c.id = Inst::kIdTbnz; c.nops = 3; c.ops[0] = w1; c.ops[1] = Imm(3); c.ops[2] = Imm(target); }
+        else if (n == "adr x,imm") { c.id = Inst::kIdAdr; c.nops = 2; c.ops[0] = x0; c.ops[1] = Imm(target); }
+        else if (n == "adrp x,imm") { c.id = Inst::kIdAdrp; c.nops = 2; c.ops[0] = x0; c.ops[1] = Imm(target); }
+        else { c.id = Inst::kIdLdr; c.nops = 2; c.ops[0] = x0; c.ops[1] = a64::Mem(target); }
+        if (base && !a64_reachable(f.form, pc, target)) c.must = std::string(((d & 3) && f.form != AF_ADR && f.form != AF_ADRP) ? "target-misaligned@" : "target-out-of-range@") + f.name;
+      } else {
+        using namespace x86;
+        bool far = d > (int64_t(1) << 31) + 16 || d < -(int64_t(1) << 31) - 16;     // beyond rel32 whatever the instruction length is
+        if (n == "jmp imm") { c.id = Inst::kIdJmp; c.nops = 1; c.ops[0] = Imm(target); }
+        else if (n == "call imm") { c.id = Inst::kIdCall; c.nops = 1; c.ops[0] = Imm(target); }
+        else if (n == "jz imm") { c.id = Inst::kIdJz; c.nops = 1; c.ops[0] = Imm(target); if (base && far) c.must = "jcc-target-beyond-rel32"; }
+        else if (n == "jnz imm (short)") { c.id = Inst::kIdJnz; c.opt = uint32_t(InstOptions::kShortForm); c.nops = 1; c.ops[0] = Imm(target); if (base && (d > 127 + 16 || d < -128 - 16)) c.must = "short-jcc-target-beyond-rel8"; }
+        else if (n == "mov eax,[rel abs]") { c.id = Inst::kIdMov; c.nops = 2; c.ops[0] = eax; c.ops[1] = ptr_rel(target, 4); if (base && far) c.must = "rel-address-beyond-rel32"; }
+        else { c.id = Inst::kIdLea; c.nops = 2; c.ops[0] = rax; c.ops[1] = ptr(target); }
+      }
+      u.calls.push_back(nop); u.calls.push_back(c);
+      g.sink(u);
+    }
+  }
+}
+
+// ---------------------------------------------------------------------------------------------------------
 // forked execution of unit batches
 // ---------------------------------------------------------------------------------------------------------
 static std::string esc(const std::string& s) {
@@ -1750,6 +1891,7 @@ int main(int argc, char** argv) {
   if (only.empty() || only == "misc") gen_misc(g, thorough);
   if (only.empty() || only == "a64") gen_a64(g, thorough);
   if (only.empty() || only == "x86") gen_x86(g, thorough);
+  if (only.empty() || only == "abs") gen_abs(g, thorough);
   if (!stop) run_batch(batch);
   if (g_par.acc_file) fclose(g_par.acc_file);
 
